@@ -458,6 +458,86 @@ def drv_service(tier, rng):
     return [[c] for c in service.catalogue(tier, rng)]
 
 
+# ---------------------------------------------------------------- C10: concurrency
+def conc_pool(rng):
+    """requests by number of biases (gates = 2 + #biases); stateful level iterators, twins and a panicking one included"""
+    pool = {0: [], 1: [], 2: []}
+    for mth in pipeline.METHODS:
+        for k in (0, 1, 2):
+            for _ in range(2):
+                seq = [rng.choice(pipeline.BIASES) for _ in range(k)]
+                pool[k].append(pipeline.pipeline_case(rng, mth, seq))
+    for k in (0, 1, 2):   # two requests of the same stateful-iterator method, different parameters
+        for mth in ('satisfactionHeuristic', 'aspectEliminationHeuristic'):
+            pool[k].append(pipeline.pipeline_case(rng, mth, [rng.choice(pipeline.BIASES) for _ in range(k)]))
+    bad = pipeline.pipeline_case(rng, 'weightedSum', [])
+    bad['methodParameters']['weights'].pop(bad['criteria'][0]['id'])
+    return pool, bad
+
+
+def conc_from_schedules(records, tier, rng):
+    pool, bad = conc_pool(rng)
+    groups = []
+    per = 2 if tier == 'quick' else 6
+    for rec in records:
+        g = rec['gates']
+        counts = [g // 100, (g // 10) % 10, g % 10] if g >= 100 else [g // 10, g % 10]
+        for j in range(per):
+            reqs = []
+            for c in counts:
+                reqs.append(copy.deepcopy(rng.choice(pool[c - 2])))
+            r = rng.random()
+            if r < 0.2 and counts[0] == counts[1]:
+                reqs[1] = copy.deepcopy(reqs[0])          # identical twins running simultaneously
+            elif r < 0.3:
+                reqs[-1] = copy.deepcopy(bad)             # a panicking request next to valid ones
+            elif r < 0.5:                                   # two decisions of the same stateful method
+                mth = rng.choice(['satisfactionHeuristic', 'aspectEliminationHeuristic'])
+                reqs = [pipeline.pipeline_case(rng, mth, [rng.choice(pipeline.BIASES) for _ in range(c - 2)]) for c in counts]
+            groups.append([{'fam': 'conc', 'unit': pipeline.PU, 'reqs': reqs, 'schedule': rec['schedule'], 'gates': g}])
+    return groups
+
+
+def drv_conc_free(tier, rng):
+    pool, bad = conc_pool(rng)
+    reqs = [r for k in pool for r in pool[k]] + [bad, bad]
+    rng.shuffle(reqs)
+    out = []
+    nb = 3 if tier == 'quick' else 12
+    for i in range(nb):
+        sub = rng.sample(reqs, 24)
+        out.append([{'fam': 'conc', 'unit': pipeline.PU, 'free': True, 'reqs': sub, 'workers': 16,
+                     'iterations': 25 if tier == 'quick' else 200}])
+    return out
+
+
+def post_races(obs, out):
+    n = out.count('WARNING: DATA RACE')
+    for o in obs:
+        o['races'] = n
+    return obs
+
+
+# ---------------------------------------------------------------- C02: repeatability
+def drv_repeat(tier, rng):
+    groups = []
+    n = 8 if tier == 'quick' else 50
+    rid = 0
+    for mth in pipeline.METHODS:
+        for _ in range(n):
+            req = pipeline.pipeline_case(rng, mth)
+            mp = req['methodParameters']
+            if mth in ('majorityHeuristic', 'aspectEliminationHeuristic', 'satisfactionHeuristic') and rng.random() < 0.5:
+                mp['randomAlternativesOrdering'] = True
+            rid += 1
+            groups.append([{'fam': 'repeat', 'unit': pipeline.PU, 'rid': 'r%d' % rid, 'req': req, 'repeat': 3 if tier == 'quick' else 10}])
+    for c in service.catalogue('quick', rng)[:200:3]:
+        rid += 1
+        c = dict(c, rid='r%d' % rid, repeat=2)
+        groups.append([c])
+    return groups
+
+
 def nt_ties(o):
     """non-trivial for ranking shape: at least two entries and at least one tie or two levels"""
     r = o.get('resp', {}).get('result', [])
@@ -518,6 +598,22 @@ FAMILIES = {
         'mode': 'serve', 'server': True, 'trace': 'Trace_Service', 'trace_workers': 1,
         'trace_states': lambda n: n + 1, 'drivers': [drv_service],
     },
+    'conc_gated': {
+        'mc': 'MC_Schedules', 'mc_cfg': {'quick': 'MC_Schedules_quick.cfg', 'thorough': 'MC_Schedules_thorough.cfg'},
+        'mc_to_cases': conc_from_schedules, 'mc_sample': {'quick': 60, 'thorough': 4000},
+        'mode': 'conc', 'trace': 'Trace_Conc', 'drivers': [],
+    },
+    'conc_free': {
+        'mode': 'conc', 'race': True, 'ok_rcs': (0, 66), 'post': post_races, 'trace': 'Trace_Conc', 'drivers': [drv_conc_free],
+    },
+    'conc_model': {
+        'mc': 'MC_Service', 'mc_cfg': {'quick': 'MC_Service_quick.cfg', 'thorough': 'MC_Service_thorough.cfg'},
+        'mc_extra': [('MC_Service_dev_sharediter.cfg', 'Isolation')], 'model_only': True,
+    },
+    'repeat': {
+        'mode': 'hist', 'procs': {'quick': 3, 'thorough': 8}, 'trace': 'Trace_Repeat', 'trace_workers': 1,
+        'trace_states': lambda n: n + 1, 'drivers': [drv_repeat],
+    },
     'c09': {
         'mode': 'decide', 'trace': 'Trace_Decide', 'drivers': [drv_c09],
     },
@@ -559,6 +655,11 @@ def nt_pipeline(o):
 
 
 PROPS = {
+    'C02': {'families': ['repeat'], 'nontrivial': lambda o: o.get('status') == 200,
+            'rule': 'events = executions of a pool of requests (all methods x random bias sequences, seeded random orders, rejected requests), repeated in-process and in several fresh processes in shuffled order; non-trivial = execution of an accepted request; distinct by request id',
+            'nt_key': lambda o: o.get('rid')},
+    'C10': {'families': ['conc_model', 'conc_gated', 'conc_free'], 'nontrivial': lambda o: True,
+            'rule': 'gated = one run per (TLC-generated schedule x request tuple); free = batches of ungated concurrent requests through the real handler built with -race; distinct by schedule + requests'},
     'C20': {'families': ['service'], 'nontrivial': lambda o: o['case'].get('expect') in ('reject', 'any'),
             'rule': 'cases = valid requests of all methods, every documented constraint violated singly, malformed / mistyped / mutated bodies, sent as one session to the real server process; non-trivial = request that is not a plain valid one; distinct by body'},
     'C09': {'families': ['c09', 'pipeline'], 'nontrivial': nt_pipeline,
